@@ -572,10 +572,29 @@ fn loop_annotation(ann: &Option<Value>) -> (String, String) {
             let name = a.get("iter").and_then(|v| v.as_str()).unwrap_or("");
             let itn = if name.is_empty() { String::new() } else { format!("{}: ", name) };
             let mut s = String::new();
+            if let Some(inv) = a.get("invariant_except_break").and_then(|v| v.as_array()) {
+                if !inv.is_empty() {
+                    s.push_str("\n        invariant_except_break\n");
+                    for c in inv {
+                        s.push_str(&format!("            {},\n", c.as_str().unwrap_or("")));
+                    }
+                }
+            }
             if let Some(inv) = a.get("invariant").and_then(|v| v.as_array()) {
                 if !inv.is_empty() {
                     s.push_str("\n        invariant\n");
                     for c in inv {
+                        s.push_str(&format!("            {},\n", c.as_str().unwrap_or("")));
+                    }
+                }
+            }
+            if let Some(ens) = a.get("ensures").and_then(|v| v.as_array()) {
+                if !ens.is_empty() {
+                    if s.is_empty() {
+                        s.push('\n');
+                    }
+                    s.push_str("        ensures\n");
+                    for c in ens {
                         s.push_str(&format!("            {},\n", c.as_str().unwrap_or("")));
                     }
                 }
